@@ -358,6 +358,8 @@ def g9_evenodd_pair(rng):
 # G5 adversarial floats (the domain of N2 / R1): near-vertical, ulp-separated, near-coincident
 
 def _ulps(x, k):
+    if x == 0.0:
+        return k * 2.0 ** -200        # stay clear of subnormals (outside the range the model accepts)
     for _ in range(abs(k)):
         x = math.nextafter(x, math.inf if k > 0 else -math.inf)
     return x
